@@ -32,6 +32,12 @@ pub struct Flags {
     pub specify: bool,
     /// C15: iteration count bound
     pub iter_bound: bool,
+    /// C14: a re-entered function without cycle handling must panic
+    pub cycle_panic: bool,
+    /// C11: nothing beyond the value oracle
+    pub acc: bool,
+    /// C05: differential against a twin database in which the lru function caches without bound
+    pub lru_twin: bool,
 }
 
 type K = (F, u64);
@@ -51,15 +57,27 @@ struct KRec {
     reads: Vec<Read>,
     val: u64,
     untracked: bool,
-    /// (op index, value changed w.r.t. previous execution)
+    /// (op index, value changed or the result became less durable w.r.t. previous execution)
     execs: Vec<(usize, bool)>,
     last_exec_rev: u64,
+    /// durability of the result: minimum over everything the execution read (0 = LOW .. 3)
+    dur: u8,
 }
 
 struct Frame {
     k: K,
     reads: Vec<Read>,
     untracked: bool,
+    dur: u8,
+}
+
+fn dur_rank(d: Dur) -> u8 {
+    match d {
+        Dur::Low => 0,
+        Dur::Medium => 1,
+        Dur::High => 2,
+        Dur::Never => 3,
+    }
 }
 
 #[derive(Clone, Debug)]
@@ -237,6 +255,7 @@ impl Monitor {
         }
         let mut stack: Vec<Frame> = Vec::new();
         let mut pending_exec: Option<Key> = None;
+        let mut reentered: Option<K> = None;
         for r in log {
             self.note_struct_rec(i, r);
             match r {
@@ -262,29 +281,41 @@ impl Monitor {
                             self.participant.remove(&k);
                         }
                     }
-                    stack.push(Frame { k, reads: Vec::new(), untracked: false });
+                    stack.push(Frame { k, reads: Vec::new(), untracked: false, dur: 3 });
                 }
                 Rec::ReadCell { c, .. } => {
                     if let Some(f) = stack.last_mut() {
                         f.reads.push(Read::Cell(*c));
+                        f.dur = f.dur.min(dur_rank(world.cell_dur[*c as usize]));
                     }
                 }
                 Rec::ReadCode { n, .. } => {
                     if let Some(f) = stack.last_mut() {
                         f.reads.push(Read::Code(*n));
+                        f.dur = f.dur.min(dur_rank(world.code_dur[*n as usize]));
                     }
                 }
                 Rec::ReadExt { .. } => {
                     if let Some(f) = stack.last_mut() {
                         f.untracked = true;
+                        f.dur = 0;
                     }
                 }
                 Rec::CallBegin { f, key, .. } => {
+                    if self.flags.cycle_panic && !f.has_cycle_handling() && stack.iter().any(|fr| fr.k == (*f, *key)) {
+                        reentered = Some((*f, *key));
+                        stats.bump("non_recovering_function_reentered", 1);
+                    }
                     if let Some(fr) = stack.last_mut() {
                         fr.reads.push(Read::Call((*f, *key)));
                     }
                 }
                 Rec::CallEnd { f, key, .. } => {
+                    // the caller's durability is bounded by the callee's
+                    let callee_dur = self.recs.get(&(*f, *key)).map(|r| r.dur).unwrap_or(0);
+                    if let Some(fr) = stack.last_mut() {
+                        fr.dur = fr.dur.min(callee_dur);
+                    }
                     if self.flags.must_exec {
                         let k = (*f, *key);
                         if let Some(r) = self.recs.get(&k) {
@@ -306,12 +337,16 @@ impl Monitor {
                 Rec::ReadFld { id, w, .. } => {
                     if let Some(f) = stack.last_mut() {
                         f.reads.push(Read::Fld(*id, *w));
+                        // durability of struct fields is not modelled: assume the lowest, which
+                        // only makes "became less durable" (a justification) more frequent
+                        f.dur = 0;
                     }
                 }
                 Rec::Interned { id, .. } => {
                     self.seen_ids.insert(*id);
                     if let Some(f) = stack.last_mut() {
                         f.reads.push(Read::Int(*id));
+                        f.dur = 0;
                     }
                 }
                 Rec::Exit { f, key, val, unwinding, .. } => {
@@ -321,7 +356,7 @@ impl Monitor {
                         debug_assert_eq!(fr.k, k);
                         if !*unwinding {
                             let prev = self.recs.get(&k);
-                            let changed = prev.map(|p| p.val != *val).unwrap_or(true);
+                            let changed = prev.map(|p| p.val != *val || fr.dur < p.dur).unwrap_or(true);
                             let mut execs = prev.map(|p| p.execs.clone()).unwrap_or_default();
                             execs.push((i, changed));
                             if prev.is_some() && !changed {
@@ -336,6 +371,7 @@ impl Monitor {
                                     untracked: fr.untracked,
                                     execs,
                                     last_exec_rev: self.rev,
+                                    dur: fr.dur,
                                 },
                             );
                         }
@@ -403,6 +439,16 @@ impl Monitor {
                 _ => {}
             }
         }
+        if let Some(k) = reentered {
+            if !matches!(out, Out::Panic(ql::items::Pk::Cycle)) {
+                return Err((
+                    "reentered-without-panic".into(),
+                    format!("{k:?} has no cycle handling and was called while it was executing, but the request ended in {out:?} instead of a cycle panic"),
+                ));
+            }
+        } else if matches!(out, Out::Panic(ql::items::Pk::Cycle)) {
+            stats.bump("cycle_panics_without_observed_reentry", 1);
+        }
         self.sub.after_op(&self.flags, i, op, exp, out, log, sess, world, pre_world, stats, self.rev)
     }
 
@@ -456,7 +502,12 @@ impl Monitor {
         let mut stack: Vec<(K, bool)> = Vec::new();
         for r in log {
             match r {
-                Rec::Enter { f, key, .. } => stack.push(((*f, *key), false)),
+                Rec::Enter { f, key, .. } => {
+                    if *f == F::Sp && self.flags.specify && self.sub.sp_spec_state.get(key) == Some(&true) {
+                        self.sub.taint_spec_switch = true;
+                    }
+                    stack.push(((*f, *key), false))
+                }
                 Rec::CallBegin { f, key, .. } => {
                     let k = (*f, *key);
                     if let Some(pos) = stack.iter().position(|fr| fr.0 == k) {
@@ -535,6 +586,9 @@ impl Monitor {
             {
                 return Some("cycle-backdate-assert");
             }
+        }
+        if self.sub.taint_spec_switch {
+            return Some("specified-to-computed-switch-not-propagated");
         }
         if self.taint_fbp {
             return Some("fallback-participant-reexecuted-outside-its-cycle");
